@@ -113,6 +113,11 @@ class FPCase(object):
                 cov_kinds='GLTPH', p_partial=0.5)
         self.leaves = leaves
         self.h = Hierarchy(leaves, n_s)
+        # sub-models hidden behind wrappers: a block as a nested composed
+        # model, single sub-models inside (unfixed) reduced models, or the
+        # whole model inside a reduced model
+        self.nest = GP.random_nest(rng) if idx % 3 == 1 else None
+        self.reduced_top = idx % 7 == 3
         # data
         self.n_times = int(rng.integers(1, 5))
         self.times = rng.permutation(
@@ -149,7 +154,9 @@ class FPCase(object):
         model.share_calls = True
         self.user_model = model
         flt = c12.make_filter(self.fname, self.obs.copy(), self.k)
-        pm = GP.build_chi(self.leaves, self.n_s)
+        pm = GP.build_chi(self.leaves, self.n_s, nest=self.nest)
+        if self.reduced_top:
+            pm = chi.ReducedPopulationModel(pm)
         prior = pints.ComposedLogPrior(*[
             pints.GaussianLogPrior(float(m), float(s))
             for m, s in zip(self.prior_mu, self.prior_sd)])
@@ -238,6 +245,8 @@ class FPCase(object):
                 'all_pooled': all(k == 'P' for k in kinds),
                 'all_hetero': all(k == 'H' for k in kinds),
                 'has_cov': any(bool(l.cov) for l in self.leaves),
+                'nested_wrappers': self.nest is not None,
+                'reduced_top': self.reduced_top,
                 'sigma_free': self.sigma_free, 'log_scale': self.log_scale}
 
 
